@@ -253,6 +253,24 @@ def histStep (d : Date) (op : String) : Except String Date :=
   | "j" => match c.atJdn? d.jdn with | some x => .ok x | none => .error "PANIC"
   | "u" => match c.atUnixTime? (jdn2unix d.jdn + 43200) with
     | some (some (x, _)) => .ok x | some none => .error "E:Arithmetic" | none => .error "PANIC"
+  | "L" => match (laterNext (some d)).1 with | some x => .ok x | none => .error "none"
+  | "E" => match (earlierNext (some d)).1 with | some x => .ok x | none => .error "none"
+  | "A" => match (andLaterNext (some d)).1 with | some x => .ok x | none => .error "none"
+  | "a" => match (andEarlierNext (some d)).1 with | some x => .ok x | none => .error "none"
+  | "Df" => match c.monthShape d.year d.month with
+    | some s => match (Dates.new s).next.1 with | some x => .ok x | none => .error "none"
+    | none => .error "noshape"
+  | "Dl" => match c.monthShape d.year d.month with
+    | some s => match (Dates.new s).nextBack.1 with | some x => .ok x | none => .error "none"
+    | none => .error "noshape"
+  | "F" => match Foreign.toChrono d with
+    | .ok y m dd => match Foreign.fromChrono y m dd with
+      | .ok x => .ok x | .panic => .error "PANIC" | .invalid => .error "invalid"
+    | .err => .error "E" | .panic => .error "PANIC"
+  | "f" => match Foreign.toTime d with
+    | .ok y m dd => match Foreign.fromTime y m dd with
+      | .ok x => .ok x | .panic => .error "PANIC" | .invalid => .error "invalid"
+    | .err => .error "E" | .panic => .error "PANIC"
   | _ =>
     -- `c<cal>`: convert_to
     match op.toList with
